@@ -1,6 +1,7 @@
 import Oracle.Util
 import MobiusModel.SessionOracle
 import MobiusModel.LoginHistory
+import MobiusModel.SetUserPw
 import MobiusModel.BanReload
 /-! Oracle handlers for C04: the Session / Scan / readFull / BanGate model on the line protocol
     (argument parsing and printing live in MobiusModel/SessionOracle.lean), the batched account
@@ -39,6 +40,31 @@ def acctBatchOp : List String → String
     | [] => "bad-op"
   | _ => "bad-op"
 
+/-- `(S|B) nFields (ty data)*` repeated: set-user requests and single-record update-user requests. -/
+def parseEdits : Nat → List String → List LoginHistory.Edit × List String
+  | 0, rest => ([], rest)
+  | n + 1, k :: nf :: rest =>
+    let (fs, rest1) := parseRecFields (num nf) rest
+    let r := parseEdits n rest1
+    ((if k == "S" then LoginHistory.Edit.setUser fs else LoginHistory.Edit.batch [fs]) :: r.1, r.2)
+  | _, rest => ([], rest)
+
+/-- `setuserhist nAcct (login hash)* nEdits ((S|B) nFields (ty data)*)* login*`: the account table after a
+    history of TranSetUser / single-record TranUpdateUser requests, with the acknowledgements in order. -/
+def setUserHistOp : List String → String
+  | na :: rest =>
+    let (accts, rest1) := SessionOracle.parsePairs (num na) rest
+    match rest1 with
+    | ne :: rest2 =>
+      let (es, qs) := parseEdits (num ne) rest2
+      let r := LoginHistory.applyEdits (fun p => 1 :: p) es (LoginHistory.ofList accts)
+      s!"acks={String.join (r.2.map fun b => if b then "1" else "0")}" ++ String.join (qs.map fun q =>
+        match r.1 (hexb q) with
+        | some h => s!" {q}={if h.isEmpty then "-" else toHex h}"
+        | none => s!" {q}=none")
+    | [] => "bad-op"
+  | _ => "bad-op"
+
 def parseEvents : Nat → List String → List BanReload.Ev
   | 0, _ => []
   | n + 1, "L" :: rest => .loadLock :: parseEvents n rest
@@ -68,6 +94,6 @@ def banReloadOp : List String → String
   | _ => "bad-op"
 
 def c04Handlers : List (String × Handler) :=
-  SessionOracle.handlers ++ [("acctbatch", acctBatchOp), ("banreload", banReloadOp)]
+  SessionOracle.handlers ++ [("acctbatch", acctBatchOp), ("banreload", banReloadOp), ("setuserhist", setUserHistOp)]
 
 end Oracle
